@@ -119,7 +119,14 @@ func TestC19Generate(t *testing.T) {
 	}
 	for _, c := range p.Regressions() {
 		got := hist.NewWorld().Exec(c.Hist)
-		if v := p.Oracle(c, got); v != "" {
+		v := p.Oracle(c, got)
+		if strings.HasPrefix(c.Name, "gofmt-") { // exemplars of the open findings: the oracle must fail on them
+			if v == "" {
+				t.Errorf("open finding %s: the oracle is quiet", c.Name)
+			}
+			continue
+		}
+		if v != "" {
 			t.Errorf("regression %s: %s", c.Name, v)
 		}
 	}
